@@ -49,6 +49,7 @@ FS_QUICK = [
     FSCfg("TR", "less", "tless", "std", "std"),
     FSCfg("NTR", "stateful", "greater", "v", "realloc"),
     FSCfg("TR", "less", "greater", "s4", "basic", std="c++20"),  # operator<=>, erase_if
+    FSCfg("int", "coarse", "less", "v", "amc"),  # raw arithmetic keys, equivalence coarser than equality
 ]
 FS_THOROUGH = [
     FSCfg("TR", "coarse", "less", "s2", "basic"),
